@@ -103,12 +103,33 @@ def coq_cfg(c):
 
 def main():
   rep = vlib.Report(PROP, "proof")
-  info = vlib.build_obligations(PROP)
-  errs = rep.obligations(info, "coqc -Q coq/theories QV coq/theories/Properties/C03.v")
+  from translate import po2gen
+  gen = po2gen.emit(vlib.GEN)
+  info = vlib.build_obligations(PROP, gen_files=[gen], extra_files=[os.path.join(vlib.COQ, "theories", "Link", "Po2Link.v")])
+  errs = rep.obligations(info, "python3 tools/translate/po2gen.py coq/gen && coqc coq/gen/Po2Gen.v && coqc coq/theories/Link/Po2Link.v && coqc coq/theories/Properties/C03.v")
   for e in errs:
     rep.violation("obligation-" + os.path.basename(e["file"]), "proof obligation no longer checks: " + e["error"][-400:],
                   {"file": e["file"]}, no_input=True)
   rng = np.random.default_rng(vlib.SEED)
+  # ---- translator validation: the exponent interval the constructors really set vs the regenerated functions in Coq
+  if not errs:
+    import qkeras.quantizers as QZ
+    tv_texts, tv_items = [], []
+    for bits in range(2, 9):
+      for mv in (None, 0.25, 0.5, 1.0, 2.0, 3.0, 4.0, 16.0):
+        for quad in (False, True):
+          mvl = "None" if mv is None else f"(Some {vlib.ratlit(Fraction(mv))})"
+          for cls, gname in ((QZ.quantized_po2, "gen_po2_exponents"), (QZ.quantized_relu_po2, "gen_rpo2_exponents")):
+            qq = cls(bits, max_value=mv, quadratic_approximation=quad)
+            tv_items.append((cls.__name__, bits, mv, quad, [int(qq._min_exp), int(qq._max_exp)]))
+            tv_texts.append(f"let p := {gname} {bits} {mvl} {vlib.blit(quad)} in [fst p; snd p]")
+    tv_out = vlib.coq_eval(PROP + "_interval", "From Coq Require Import ZArith List Bool.\nFrom QV Require Import Base.ZQ Base.FL.\nFrom QVGen Require Import Po2Gen.\n"
+                           "Import ListNotations.\nOpen Scope Z_scope.\n" + "".join(f"Eval vm_compute in {t}.\n" for t in tv_texts))
+    bad = [(it, got) for it, got in zip(tv_items, tv_out) if it[4] != got]
+    for it, got in bad[:8]:
+      rep.violation(f"translator-mismatch-{it[0]}-{it[1]}-{it[2]}-{it[3]}", f"{it[0]}(bits={it[1]}, max_value={it[2]}, quadratic_approximation={it[3]}) sets "
+                    f"(_min_exp, _max_exp) = {it[4]} but the translation of its constructor gives {got}", {"config": list(it[:4])})
+    rep.note(translator_validation=dict(constructors=len(tv_items), equal=len(tv_items) - len(bad)))
   cfgs = configs(rep.tier, rng)
   ftz = env.calibrate_ftz()
   if not ftz:
